@@ -312,4 +312,27 @@ func (t *TCPClient) RoundTrip(rec []byte, d time.Duration, frags ...int) ([]byte
 	return nfsx.ReadRecord(t.C, 8<<20)
 }
 
+// RoundTripSplit is RoundTrip with the framed record handed to the socket in two pieces, split bytes first and the
+// rest a few milliseconds later (TCP gives no guarantee that a record marker arrives in one segment).
+func (t *TCPClient) RoundTripSplit(rec []byte, d time.Duration, split int, frags ...int) ([]byte, error) {
+	t.C.SetDeadline(time.Now().Add(d))
+	framed := nfsx.Frame(rec, frags...)
+	if split <= 0 || split >= len(framed) {
+		split = len(framed)
+	}
+	if tc, ok := t.C.(*net.TCPConn); ok {
+		tc.SetNoDelay(true)
+	}
+	if _, err := t.C.Write(framed[:split]); err != nil {
+		return nil, err
+	}
+	if split < len(framed) {
+		time.Sleep(3 * time.Millisecond)
+		if _, err := t.C.Write(framed[split:]); err != nil {
+			return nil, err
+		}
+	}
+	return nfsx.ReadRecord(t.C, 8<<20)
+}
+
 func (t *TCPClient) Close() { t.C.Close() }
